@@ -1,4 +1,4 @@
-from checks import mibcompile, oidindex, atomicwrite, searcher, readerlookup, history, oidtree, decls, refs, types, texts, v1v2, pysnmpload, syntax, mutate
+from checks import mibcompile, oidindex, atomicwrite, searcher, readerlookup, history, oidtree, decls, refs, types, texts, v1v2, pysnmpload, syntax, mutate, dialects
 
 RULE_MC = ('scenario = terminal state of MibCompile.tla exported by TLC (request x lazily chosen answers of every '
            'component x options); non-trivial = at least one component answered with a failure / fresh / borrow; '
@@ -77,3 +77,6 @@ REGISTRY['C02'] = {'run': syntax.run, 'replay': syntax.replay, 'finish': {
 
 REGISTRY['C11'] = {'run': mutate.run, 'replay': mutate.replay, 'finish': {
     'rule': 'input = a file of Syntax.tla damaged by one token mutation of Mutate.tla (delete / duplicate / replace / insert with an alphabet holding forbidden words, numbers beyond 64 bits, trailing-hyphen identifiers, illegal and non-ASCII characters) or cut at every character offset; each parsed under one of the three dialects; distinct by text', 'exhaustive': False}}
+
+REGISTRY['C17'] = {'run': dialects.run, 'replay': dialects.replay, 'finish': {
+    'rule': 'item = state of Dialects.tla: a buildable subset S of the nine relaxations x (a documented breakage edit of a well-formed host | a construct writable only under an option | a single step S -> S+{o} over a corpus of well-formed files); all 384 buildable subsets in both tiers; distinct by (S, item)', 'exhaustive': False}}
